@@ -28,7 +28,7 @@ def build(tier, seed):
                     hn = 'spec_%s_%s_c%d' % (tn, kn, ch)
                     gen.append('#[kani::proof] #[kani::unwind(8)] fn %s() { spec_step(DeriveTrait::%s, %d, %d) }' % (hn, t, tag, ch))
                     quick = kn in QUICK and ch == childs[-1] and (t in ('Default', 'Hash', 'PartialEqOrPartialOrd') or kn in ('Comp', 'Array', 'Function'))
-                    hs.append(H(hn, path='derive::spec_proofs::' + hn, timeout=900, weight=2, tier='quick' if quick else 'thorough',
+                    hs.append(H(hn, path='derive::spec_proofs::' + hn, timeout=900, weight=2 if kn == 'Comp' else 1, tier='quick' if quick else 'thorough',
                                 may_unsat=('cannot derive', 'can derive'),
                                 desc='derive(%s) rule for TypeKind::%s (child 1 = %s) == documented specification, one step from an arbitrary pre-state' % (t, kn, ['Int', '', '', 'Function'][ch]),
                                 sample={'trait': t, 'X_kind': kn, 'pre_state': 'arbitrary'}))
@@ -60,4 +60,26 @@ mod proofs {
         kk.encoded = [enc('ir/derive.rs', 'whole file', rd('ir/derive.rs'))]
         kk.bounds = ['all triples of CanDerive']
         return kk
-    return [kernel_or_error('derive_spec', k), kernel_or_error('can_derive_laws', laws)]
+    def gates():
+        cx = rd('ir/context.rs'); mod = rd('codegen/mod.rs')
+        lookups = []
+        for f in ('lookup_can_derive_debug', 'lookup_can_derive_default', 'lookup_can_derive_hash', 'lookup_can_derive_partialeq_or_partialord', 'lookup_can_derive_copy'):
+            lookups.append(extract(cx, r'^    pub\(crate\) fn %s<\s*Id: Into<ItemId>' % f, what=f))
+        lookups.append(extract(cx, r'^    pub\(crate\) fn lookup_has_float<Id: Into<ItemId>>\(', what='lookup_has_float'))
+        gates_t = []
+        for tr in ('Debug', 'Default', 'Copy', 'Hash', 'PartialOrd', 'PartialEq', 'Eq', 'Ord'):
+            gates_t.append(extract(cx, r'^impl<T> CanDerive%s for T$' % tr, what='impl CanDerive%s for T' % tr))
+        doi = extract(mod, r'^fn derives_of_item\(', what='derives_of_item')
+        ird = strip_uses(strip_inner(rd('ir/derive.rs')))
+        h = open(os.path.join(G, 'harness', 'c08_gates.rs')).read()
+        h = h.replace('/*LOOKUPS*/', '\n'.join(lookups)).replace('/*IR_DERIVE*/', ird).replace('/*GATES*/', '\n'.join(gates_t)).replace('/*DERIVES_OF_ITEM*/', doi)
+        kk = Kernel(name='gates')
+        kk.files = {'src/lib.rs': h}
+        kk.harnesses = [H('option_gates_and_float_exclusion', desc='impl CanDerive* for T x lookup_*: all 2^8 option combinations, all analysis answers; Eq/Ord need PartialEq == Yes and no float; Copy needs no type parameter in an array', sample='2^8 options x analysis answers'),
+                        H('derive_set_assembly', desc='derives_of_item: Clone iff Copy, packed and not Copy => nothing, annotations veto Copy/Debug/Default', sample='options x answers x annotations x packed')]
+        kk.encoded = [enc('ir/context.rs', 'impl CanDerive{Debug,Default,Copy,Hash,PartialOrd,PartialEq,Eq,Ord} for T', '\n'.join(gates_t)), enc('ir/context.rs', 'lookup_can_derive_* / lookup_has_float', '\n'.join(lookups)),
+                      enc('codegen/mod.rs', 'fn derives_of_item', doi), enc('ir/derive.rs', 'whole file', rd('ir/derive.rs'))]
+        kk.stubs = ['BindgenContext: option flags + the analysis result sets as one-element stand-ins (contains/get answer a symbolic value)', 'DerivableTraits: u16 newtype with the constants of the bitflags type', 'Item: id + three annotation flags; CanDerive* for Item forwards to the id (as ir/item.rs does)']
+        kk.bounds = ['no loops; every combination']
+        return kk
+    return [kernel_or_error('derive_spec', k), kernel_or_error('can_derive_laws', laws), kernel_or_error('gates', gates)]
